@@ -121,32 +121,35 @@ structure J (σ : Sys) : Prop where
   uniq : ∀ w₁ ∈ σ.wins, ∀ w₂ ∈ σ.wins, w₁.key = w₂.key → w₁.since = w₂.since → w₁.who = w₂.who
   past : ∀ k s, fsOf σ.db k = some (some s) → s ≤ σ.now
   pendPast : ∀ p ∈ σ.pending, p.2.2 ≤ σ.now
+  entPast : ∀ p ∈ σ.entered, p.2.2 ≤ σ.now
 
 theorem timeout_pos : (0 : Int) < timeout := by decide
 
 theorem j_init {db : Db} (hi : Inv db) (now : Int) (hp : ∀ k s, fsOf db k = some (some s) → s ≤ now) :
     J (Claim.init db now) :=
-  ⟨hi, by simp [Claim.init], by simp [Claim.init], hp, by simp [Claim.init]⟩
+  ⟨hi, by simp [Claim.init], by simp [Claim.init], hp, by simp [Claim.init], by simp [Claim.init]⟩
 
-/-- one UPDATE statement that changed a row: the new win is consistent, older wins on the key are expired -/
-theorem j_win_update {σ : Sys} (hj : J σ) (c : Claimant) (k : Key)
-    (hn : (σ.db.stmtClaimUpdate k σ.now (σ.now - timeout)).2 > 0) :
-    J { σ with db := (σ.db.stmtClaimUpdate k σ.now (σ.now - timeout)).1, wins := ⟨c, k, σ.now⟩ :: σ.wins } := by
-  obtain ⟨fs, hfs, hcl⟩ := (claimUpdate_count_pos hj.inv k σ.now _).mp hn
-  have hnew : fsOf (σ.db.stmtClaimUpdate k σ.now (σ.now - timeout)).1 k = some (some σ.now) := by
+/-- one UPDATE statement that changed a row (issued with the clock value `t0 ≤ now` read at entry):
+    the new win is consistent, older wins on the key are expired -/
+theorem j_win_update {σ : Sys} (hj : J σ) (c : Claimant) (k : Key) (t0 : Int) (ht : t0 ≤ σ.now)
+    (ent : List (Claimant × Key × Int)) (he : ∀ p ∈ ent, p.2.2 ≤ σ.now)
+    (hn : (σ.db.stmtClaimUpdate k t0 (t0 - timeout)).2 > 0) :
+    J { σ with db := (σ.db.stmtClaimUpdate k t0 (t0 - timeout)).1, entered := ent, wins := ⟨c, k, t0⟩ :: σ.wins } := by
+  obtain ⟨fs, hfs, hcl⟩ := (claimUpdate_count_pos hj.inv k t0 _).mp hn
+  have hnew : fsOf (σ.db.stmtClaimUpdate k t0 (t0 - timeout)).1 k = some (some t0) := by
     rw [fsOf_claimUpdate, hfs]; simp [hcl]
-  have hother : ∀ k', k' ≠ k → fsOf (σ.db.stmtClaimUpdate k σ.now (σ.now - timeout)).1 k' = fsOf σ.db k' := by
+  have hother : ∀ k', k' ≠ k → fsOf (σ.db.stmtClaimUpdate k t0 (t0 - timeout)).1 k' = fsOf σ.db k' := by
     intro k' hk'
     rw [fsOf_claimUpdate]
     cases fsOf σ.db k' <;> simp [hk']
-  -- every old win on k is older than now - timeout
-  have hold : ∀ w ∈ σ.wins, w.key = k → w.since + timeout < σ.now := by
+  -- every old win on k is older than t0 - timeout
+  have hold : ∀ w ∈ σ.wins, w.key = k → w.since + timeout < t0 := by
     intro w hw hk
     obtain ⟨s, hs, hd⟩ := hj.winRow w hw
     rw [hk, hfs] at hs
     have : fs = some s := Option.some.inj hs
     subst this
-    have hlt : s < σ.now - timeout := by simpa [claimableFs] using hcl
+    have hlt : s < t0 - timeout := by simpa [claimableFs] using hcl
     have tp := timeout_pos
     rcases hd with h | h <;> omega
   constructor
@@ -154,9 +157,9 @@ theorem j_win_update {σ : Sys} (hj : J σ) (c : Claimant) (k : Key)
   · intro w hw
     simp only [List.mem_cons] at hw
     rcases hw with rfl | hw
-    · exact ⟨σ.now, hnew, Or.inl rfl⟩
+    · exact ⟨t0, hnew, Or.inl rfl⟩
     · by_cases hk : w.key = k
-      · exact ⟨σ.now, by rw [hk]; exact hnew, Or.inr (hold w hw hk)⟩
+      · exact ⟨t0, by rw [hk]; exact hnew, Or.inr (hold w hw hk)⟩
       · obtain ⟨s, hs, hd⟩ := hj.winRow w hw
         exact ⟨s, by rw [hother _ hk]; exact hs, hd⟩
   · intro w₁ h₁ w₂ h₂ hk hs
@@ -171,11 +174,12 @@ theorem j_win_update {σ : Sys} (hj : J σ) (c : Claimant) (k : Key)
   · intro k' s hs
     by_cases hk' : k' = k
     · subst hk'; rw [hnew] at hs
-      have : σ.now = s := by simpa using hs
+      have : t0 = s := by simpa using hs
       show s ≤ σ.now
       omega
     · rw [hother _ hk'] at hs; exact hj.past k' s hs
   · exact hj.pendPast
+  · exact he
 
 /-- an UPDATE that matched no row leaves the claim columns as they were -/
 theorem fsOf_claimUpdate_zero {db : Db} (hi : Inv db) (k : Key) (now thr : Int)
@@ -196,10 +200,11 @@ theorem fsOf_claimUpdate_zero {db : Db} (hi : Inv db) (k : Key) (now thr : Int)
     · simp [hkk]
 
 theorem j_same_fs {σ : Sys} (hj : J σ) (db' : Db) (hi' : Inv db') (hfs : ∀ k, fsOf db' k = fsOf σ.db k)
-    (pend : List (Claimant × Key × Int)) (hp : ∀ p ∈ pend, p.2.2 ≤ σ.now) (lost : List (Claimant × Key)) :
-    J { σ with db := db', pending := pend, lost := lost } :=
+    (pend : List (Claimant × Key × Int)) (hp : ∀ p ∈ pend, p.2.2 ≤ σ.now) (lost : List (Claimant × Key))
+    (ent : List (Claimant × Key × Int) := σ.entered) (he : ∀ p ∈ ent, p.2.2 ≤ σ.now := by exact hj.entPast) :
+    J { σ with db := db', pending := pend, lost := lost, entered := ent } :=
   ⟨hi', fun w hw => by obtain ⟨s, hs, hd⟩ := hj.winRow w hw; exact ⟨s, by rw [hfs]; exact hs, hd⟩,
-   hj.uniq, fun k s hs => hj.past k s (by rw [← hfs]; exact hs), hp⟩
+   hj.uniq, fun k s hs => hj.past k s (by rw [← hfs]; exact hs), hp, he⟩
 
 /-- an INSERT OR IGNORE that created the row -/
 theorem j_win_insert {σ : Sys} (hj : J σ) (c : Claimant) (k : Key) (t0 : Int) (ht : t0 ≤ σ.now)
@@ -240,6 +245,7 @@ theorem j_win_insert {σ : Sys} (hj : J σ) (c : Claimant) (k : Key) (t0 : Int) 
       omega
     · rw [hother _ hk'] at hs; exact hj.past k' s hs
   · exact hp
+  · exact hj.entPast
 
 theorem fsOf_claimInsert_zero (db : Db) (k : Key) (t0 : Int) (hz : ¬ (db.stmtClaimInsert k t0).2 > 0) (k' : Key) :
     fsOf (db.stmtClaimInsert k t0).1 k' = fsOf db k' := by
@@ -257,19 +263,35 @@ theorem filter_pend {σ : Sys} (hj : J σ) (c : Claimant) :
     ∀ p ∈ σ.pending.filter (·.1 != c), p.2.2 ≤ σ.now :=
   fun p hp => hj.pendPast p (List.mem_filter.mp hp).1
 
+theorem filter_ent {σ : Sys} (hj : J σ) (c : Claimant) :
+    ∀ p ∈ σ.entered.filter (·.1 != c), p.2.2 ≤ σ.now :=
+  fun p hp => hj.entPast p (List.mem_filter.mp hp).1
+
 /-- **the invariant is preserved by every event** -/
 theorem j_step {σ : Sys} (hj : J σ) (ev : Ev) : J (step σ ev) := by
   cases ev with
-  | start c k =>
+  | enter c k =>
     simp only [step]
-    split
-    · rename_i hn; exact j_win_update hj c k hn
-    · rename_i hn
-      exact j_same_fs hj _ (inv_claimUpdate hj.inv k _ _) (fsOf_claimUpdate_zero hj.inv k _ _ hn)
-        ((c, k, σ.now) :: σ.pending)
-        (by intro p hp; rcases List.mem_cons.mp hp with rfl | hp
-            · exact Int.le_refl _
-            · exact hj.pendPast p hp) σ.lost
+    exact j_same_fs hj σ.db hj.inv (fun _ => rfl) σ.pending hj.pendPast σ.lost ((c, k, σ.now) :: σ.entered)
+      (by intro p hp; rcases List.mem_cons.mp hp with rfl | hp
+          · exact Int.le_refl _
+          · exact hj.entPast p hp)
+  | update c =>
+    simp only [step]
+    cases hf : σ.entered.find? (·.1 == c) with
+    | none => exact hj
+    | some p =>
+      obtain ⟨c', k, t0⟩ := p
+      have ht : t0 ≤ σ.now := hj.entPast _ (List.mem_of_find?_eq_some hf)
+      simp only
+      split
+      · rename_i hn; exact j_win_update hj c k t0 ht _ (filter_ent hj c) hn
+      · rename_i hn
+        exact j_same_fs hj _ (inv_claimUpdate hj.inv k _ _) (fsOf_claimUpdate_zero hj.inv k _ _ hn)
+          ((c, k, t0) :: σ.pending)
+          (by intro p hp; rcases List.mem_cons.mp hp with rfl | hp
+              · exact ht
+              · exact hj.pendPast p hp) σ.lost _ (filter_ent hj c)
   | insert c =>
     simp only [step]
     cases hf : σ.pending.find? (·.1 == c) with
@@ -286,7 +308,7 @@ theorem j_step {σ : Sys} (hj : J σ) (ev : Ev) : J (step σ ev) := by
     simp only [step, Cache.tryStartFetch]
     by_cases hn : (σ.db.stmtClaimUpdate k σ.now (σ.now - Generated.fetchTimeoutMs)).2 > 0
     · simp only [hn, if_true]
-      exact j_win_update hj c k hn
+      exact j_win_update hj c k σ.now (Int.le_refl _) σ.entered hj.entPast hn
     · simp only [hn, if_false]
       -- UPDATE matched nothing; then the INSERT, at the same `now`, on the unchanged claim columns
       have h1 := j_same_fs hj _ (inv_claimUpdate hj.inv k σ.now (σ.now - timeout))
@@ -327,14 +349,16 @@ theorem j_step {σ : Sys} (hj : J σ) (ev : Ev) : J (step σ ev) := by
         · simp only [Option.map_some, hk', if_false, Option.some.injEq] at hs
           exact hj.past k' s (by rw [hq, hs])
     · exact hj.pendPast
+    · exact hj.entPast
   | die c =>
     simp only [step]
-    exact j_same_fs hj σ.db hj.inv (fun _ => rfl) _ (filter_pend hj c) σ.lost
+    exact j_same_fs hj σ.db hj.inv (fun _ => rfl) _ (filter_pend hj c) σ.lost _ (filter_ent hj c)
   | tick d =>
     simp only [step]
     have hd : (0 : Int) ≤ d := Int.natCast_nonneg d
     exact ⟨hj.inv, hj.winRow, hj.uniq, fun k s hs => by have := hj.past k s hs; show s ≤ σ.now + d; omega,
-      fun p hp => by have := hj.pendPast p hp; show p.2.2 ≤ σ.now + d; omega⟩
+      fun p hp => by have := hj.pendPast p hp; show p.2.2 ≤ σ.now + d; omega,
+      fun p hp => by have := hj.entPast p hp; show p.2.2 ≤ σ.now + d; omega⟩
 
 theorem j_run {σ : Sys} (hj : J σ) (evs : List Ev) : J (runEvs σ evs) := by
   induction evs generalizing σ with
@@ -432,14 +456,14 @@ theorem c09_boundary :
 /-- two handles racing on a NEW package: exactly one INSERT wins -/
 example :
     let k : Key := ⟨"npm".toList, "p".toList⟩
-    let σ := runEvs (Claim.init Db.empty 5) [.start 1 k, .start 2 k, .insert 2, .insert 1]
+    let σ := runEvs (Claim.init Db.empty 5) [.enter 1 k, .enter 2 k, .update 1, .update 2, .insert 2, .insert 1]
     σ.wins.map (·.who) = [2] ∧ σ.lost = [(1, k)] := by decide
 
 /-- dead owner: the claim expires and exactly one of the next contenders gets it -/
 example :
     let k : Key := ⟨"npm".toList, "p".toList⟩
     let σ := runEvs (Claim.init Db.empty 0) [.startAtomic 1 k, .die 1, .tick 30000, .startAtomic 2 k, .tick 1,
-                                             .start 3 k, .start 4 k]
+                                             .enter 3 k, .enter 4 k, .update 3, .update 4]
     σ.lost = [(2, k)] ∧ σ.wins.map (·.who) = [3, 1] ∧ σ.pending.map (·.1) = [4] := by decide
 
 end Vlsp.C09
